@@ -4,7 +4,9 @@
              droplet exactly once; in the distance matcher link + bookkeeping +
              invalidation happen together and the final loop starts a track for exactly
              the unmatched droplet indices;
-  INDEX      row index ↔ alive track, column index ↔ frame droplet ↔ matched set;
+  INDEX      row index ↔ alive track, column index ↔ frame droplet ↔ matched set (a fresh set per frame);
+  CONT       the overlap test reads each alive track's *current* last droplet inside the
+             per-droplet loop (a track extended in this frame no longer matches the old one);
   TIME       every store is stamped with the frame's own time from time_course.items();
   FLOW       every frame reaches the matcher; alive set computed from t_last before
              matching; t_last updated on every path (gap-free tracks);
@@ -27,7 +29,7 @@ def check(ctx: Ctx):
         "store (TIME), dominance/all-paths rules on the frame loop (FLOW), copy-on-append (OWN), identity test of the optional time "
         "(NONETEST), effect rule on the input (EFFECT) and emptiness guard before cdist (EMPTY)."
     )
-    tracking.check_overlap_matcher(ctx, rules=("PATHCOUNT", "TIME"))
+    tracking.check_overlap_matcher(ctx, rules=("PATHCOUNT", "TIME", "CONT"))
     tracking.check_distance_matcher(ctx, rules=("PATHCOUNT", "TIME", "INDEX"))
     tracking.check_main_loop(ctx)
     tracking.check_track_append(ctx)
@@ -35,6 +37,7 @@ def check(ctx: Ctx):
     empty.check_cdist(ctx)
     ctx.expect("PATHCOUNT", 3)
     ctx.expect("INDEX", 4)
+    ctx.expect("CONT", 1)
     ctx.expect("TIME", 6)
     ctx.expect("FLOW", 3)
     ctx.expect("OWN", 2)
